@@ -521,9 +521,11 @@ class TypeConstructor(AbstractType):
         #    In this context, the type constructor Bar<T> is not a subtype
         #    of Foo<Float, T>.
         # }
-        type_vars = set(
-            matched_supertype.get_type_variable_assignments().values())
-        return not bool(type_vars.intersection(self.type_parameters))
+        # The type variables of the type constructor may also be nested in
+        # the type arguments of the supertype (class Bar<T> extends
+        # Foo<List<T>>), so look for them at any depth.
+        return not any(_type_var_occurs_in(t_param, matched_supertype)
+                       for t_param in self.type_parameters)
 
     def new(self, type_args: List[Type]):
         type_map = {tp: type_args[i]
